@@ -260,6 +260,14 @@ def get_reuse_info(
     copyright_prefix = (
         copyright_prefix if copyright_prefix is not None else "spdx"
     )
+    for item in copyrights:
+        if "\n" in item:
+            raise click.UsageError(
+                _(
+                    "'{statement}' contains a line break: a copyright notice"
+                    " is a single line."
+                ).format(statement=item)
+            )
     copyright_lines = {
         make_copyright_line(item, year=year, copyright_prefix=copyright_prefix)
         for item in copyrights
